@@ -561,7 +561,7 @@ func (c *Ctx) h4rCallCloses(com *ssa.CallCommon) []string {
 		name, n := "", 0
 		for _, fi := range c.h4FieldInits(a) {
 			if fi.field == fieldName(fa.X.Type(), fa.Field) {
-				name = c.h4SpawnerChan(fi.val, 0)
+				name = h4InitName(c.h4SpawnerChan(fi.val, 0), fi, a)
 				n++
 			}
 		}
@@ -617,4 +617,34 @@ func h4rSpilledParam(al *ssa.Alloc) *ssa.Parameter {
 		return nil
 	}
 	return par
+}
+
+// h4rAlwaysWrites: the call runs a same-package function that performs a plain write (Fprintf,
+// WriteString, ...) on every path to its returns - an iteration that makes this call writes something.
+func h4rAlwaysWrites(ci ssa.CallInstruction) bool {
+	call, ok := ci.(*ssa.Call)
+	if !ok || call.Parent() == nil {
+		return false
+	}
+	callee := call.Call.StaticCallee()
+	if callee == nil || callee.Blocks == nil || pkgRel(callee) != pkgRel(call.Parent()) {
+		return false
+	}
+	for _, in := range allCalls(callee) {
+		if k, isCall := in.(*ssa.Call); isCall && h4PlainWrite[callName(&k.Call)] && g9AlwaysRuns(k) {
+			return true
+		}
+	}
+	return false
+}
+
+// h4rFieldOf: v is a field loaded from the object that resolves, through the parameter bindings of
+// env, to root (e.g. the receiver of a helper method bound to the receiver of the anchor).
+func h4rFieldOf(v ssa.Value, env g5Env, root ssa.Value) bool {
+	ld, ok := v.(*ssa.UnOp)
+	if !ok || ld.Op != token.MUL {
+		return false
+	}
+	fa, ok := ld.X.(*ssa.FieldAddr)
+	return ok && g5Resolve(fa.X, env) == root
 }
